@@ -43,7 +43,9 @@ use yverif::shell::{BuiltinFuture, Config, Outcome, SourceKind, VEnv, probe_buil
 
 /// the files the scripts may read with the `.` built-in (the same in lean/YashModel/Input/Model.lean
 /// `dotFile`)
-const DOT_FILES: [(&str, &str); 10] = [
+const DOT_FILES: [(&str, &str); 11] = [
+    // what an asynchronous command's standard input is redirected to (`nullify_stdin`)
+    ("/dev/null", ""),
     ("/d1", "probe D1\nread vd\nprobe D1b \"$vd\"\n"),
     ("/d2", "alias a3='probe fromdot'\nset -o portable\n"),
     ("/d3", "probe D3a\nfi\nprobe D3b\n"),
@@ -1432,6 +1434,34 @@ impl Gen {
         };
         format!("{head}\n{tail}")
     }
+    /// asynchronous commands that read standard input (`cat &`, `read v &`, `{ cat; read v; } &`): at the top
+    /// level with `monitor` off, and inside `( … )` with `set -m` on (job control is not in effect in a
+    /// subshell) — their standard input is /dev/null, so the following lines of the script are still
+    /// there: the next command line (`probe X…`) runs exactly once, a following `read` gets its line
+    fn async_unit(&mut self) -> String {
+        let v = self.var();
+        let w = self.var();
+        self.xmarker += 1;
+        let x = format!("X{}", self.xmarker);
+        let reader = match self.rng.below(5) {
+            0 | 1 => "cat".to_string(),
+            2 => format!("read {v}"),
+            3 => format!("{{ cat; read {v}; }}"),
+            _ => format!("read -r {v} {w}"),
+        };
+        let tail = match self.rng.below(3) {
+            0 => format!("read {w}\n{}\nprobe {x} \"${w}\" \"${v}\"", self.data_line()),
+            _ => format!("probe {x} $? \"${v}\""),
+        };
+        match self.rng.below(6) {
+            0 => format!("{reader} &\n{tail}"),
+            1 => format!("{reader} & st 3\n{tail}"),
+            2 => format!("set -m\n( {reader} & )\n{tail}\nset +m"),
+            3 => format!("set -m; ( {reader} & st 4 ); probe {} $?\n{tail}\nset +m", self.m()),
+            4 => format!("set -m\n( ( {reader} & ) )\n{tail}\nset +m; {reader} &\nprobe {}", self.m()),
+            _ => format!("( {reader} & )\n{tail}"),
+        }
+    }
     fn alias_unit(&mut self) -> String {
         let k = 1 + self.rng.below(3);
         match self.rng.below(7) {
@@ -1840,7 +1870,8 @@ impl Gen {
         pool[self.rng.below(pool.len())].clone()
     }
     fn unit(&mut self) -> String {
-        match self.rng.below(24) {
+        match self.rng.below(26) {
+            24 | 25 => self.async_unit(),
             22 | 23 => self.redir_unit(),
             20 | 21 => self.read_bs_unit(),
             0..=3 => self.line(),
@@ -2076,7 +2107,12 @@ fn main() {
     // thin branches fed with a boundary at every byte position: here-documents split across reads,
     // line continuation at a chunk boundary, an alias whose replacement consumes the next line, end of
     // input inside a quote, NUL and invalid UTF-8 bytes in data and in script text
-    let edge_scripts: [&[&str]; 29] = [
+    let edge_scripts: [&[&str]; 32] = [
+        // asynchronous readers: their standard input is /dev/null (unless job control is in effect for
+        // them), the lines that follow stay on the shell's input
+        &["set -m\n", "probe m1\n", "( cat & )\n", "probe X1 $?\n", "read v1\nline é\nprobe X2 \"$v1\"\n"],
+        &["cat &\n", "probe X1 $?\n", "read v1 & st 3\nprobe X2 \"$v1\" $?\n"],
+        &["set -m; ( { cat; read v1; } & st 4 ); probe m1 $?\n", "read v2\nnext\nprobe X1 \"$v2\"\n", "set +m\n"],
         // lines without commands at the start, in the middle and at the end of the input: `$?` at end of
         // input is that of the last line that held a command, or 0 if none did
         &["\n# c\n   \n", "st 3\n", "\n\t# é\n", "   "],
